@@ -104,8 +104,18 @@ pub fn a2s(a: &Array2<f32>) -> Vec<Vec<V>> {
 /// content for a target buffer a caller hands to `predict_inplace`: any junk of the right shape
 pub trait Junk {
     fn junk(&mut self, salt: usize);
+    /// a buffer of the same shape that is NOT in standard layout: an owned `Array1` that is every second
+    /// cell of a wider allocation (`slice_move(s![..;2])`), an owned column-major `Array2`
+    fn odd_layout(&self) -> Self;
+}
+fn strided1<T: Clone>(a: &Array1<T>) -> Array1<T> {
+    let w: Array1<T> = a.iter().flat_map(|v| [v.clone(), v.clone()]).collect();
+    w.slice_move(s![..;2])
 }
 impl Junk for Array1<f64> {
+    fn odd_layout(&self) -> Self {
+        strided1(self)
+    }
     fn junk(&mut self, salt: usize) {
         for (i, v) in self.iter_mut().enumerate() {
             *v = if salt == 1 && i % 3 == 0 { f64::NAN } else { -7.25 - 1.5 * i as f64 + 1e3 * salt as f64 };
@@ -113,6 +123,11 @@ impl Junk for Array1<f64> {
     }
 }
 impl Junk for Array2<f64> {
+    fn odd_layout(&self) -> Self {
+        let mut fo = Array2::<f64>::zeros(self.dim().f());
+        fo.assign(self);
+        fo
+    }
     fn junk(&mut self, salt: usize) {
         for (i, v) in self.iter_mut().enumerate() {
             *v = if salt == 1 && i % 3 == 0 { f64::NAN } else { -7.25 - 1.5 * i as f64 + 1e3 * salt as f64 };
@@ -120,6 +135,9 @@ impl Junk for Array2<f64> {
     }
 }
 impl Junk for Array1<f32> {
+    fn odd_layout(&self) -> Self {
+        strided1(self)
+    }
     fn junk(&mut self, salt: usize) {
         for (i, v) in self.iter_mut().enumerate() {
             *v = if salt == 1 && i % 3 == 0 { f32::NAN } else { -7.25 - 1.5 * i as f32 + 1e3 * salt as f32 };
@@ -127,6 +145,11 @@ impl Junk for Array1<f32> {
     }
 }
 impl Junk for Array2<f32> {
+    fn odd_layout(&self) -> Self {
+        let mut fo = Array2::<f32>::zeros(self.dim().f());
+        fo.assign(self);
+        fo
+    }
     fn junk(&mut self, salt: usize) {
         for (i, v) in self.iter_mut().enumerate() {
             *v = if salt == 1 && i % 3 == 0 { f32::NAN } else { -7.25 - 1.5 * i as f32 + 1e3 * salt as f32 };
@@ -134,6 +157,9 @@ impl Junk for Array2<f32> {
     }
 }
 impl Junk for Array1<usize> {
+    fn odd_layout(&self) -> Self {
+        strided1(self)
+    }
     fn junk(&mut self, salt: usize) {
         for (i, v) in self.iter_mut().enumerate() {
             *v = 9000 + 10 * salt + i;
@@ -141,6 +167,9 @@ impl Junk for Array1<usize> {
     }
 }
 impl Junk for Array1<bool> {
+    fn odd_layout(&self) -> Self {
+        strided1(self)
+    }
     fn junk(&mut self, salt: usize) {
         for (i, v) in self.iter_mut().enumerate() {
             *v = (i + salt) % 2 == 0;
@@ -148,6 +177,9 @@ impl Junk for Array1<bool> {
     }
 }
 impl Junk for Array1<Pr> {
+    fn odd_layout(&self) -> Self {
+        strided1(self)
+    }
     fn junk(&mut self, salt: usize) {
         for (i, v) in self.iter_mut().enumerate() {
             *v = Pr::new(if (i + salt) % 2 == 0 { 0.75 } else { 0.0625 });
@@ -155,15 +187,39 @@ impl Junk for Array1<Pr> {
     }
 }
 
+/// bit-identical (any NaN = any NaN)
+fn videntical(a: &[V], b: &[V]) -> bool {
+    a.len() == b.len()
+        && a.iter().zip(b.iter()).all(|(x, y)| match (x, y) {
+            (V::D(p), V::D(q)) => p == q,
+            (V::F(p), V::F(q)) => p.to_bits() == q.to_bits() || (p.is_nan() && q.is_nan()),
+            (V::S(p), V::S(q)) => p.to_bits() == q.to_bits() || (p.is_nan() && q.is_nan()),
+            _ => false,
+        })
+}
+
 struct Cmp<'a> {
     kind: &'a str,
     margin: &'a dyn Fn(ArrayView1<f64>) -> f64,
     skipped: usize,
+    /// comparisons made / comparisons of rows in the SAME memory layout that passed by tolerance only
+    compared: usize,
+    same_layout: usize,
+    inexact_same_layout: usize,
 }
 impl<'a> Cmp<'a> {
     fn rows(&mut self, ctx: &mut Ctx, clause: &str, row: ArrayView1<f64>, a: &[V], b: &[V], what: impl Fn() -> String) {
+        self.compared += 1;
+        let same_layout = clause != "layout_independent";
+        if same_layout {
+            self.same_layout += 1;
+        }
         match vclose(a, b) {
-            Some(true) => {}
+            Some(true) => {
+                if same_layout && !videntical(a, b) {
+                    self.inexact_same_layout += 1;
+                }
+            }
             Some(false) => ctx.fail(clause, self.kind, format!("{}: {:?} vs {:?} for row {:?}", what(), a, b, row.to_vec())),
             None => {
                 let m = (self.margin)(row);
@@ -175,6 +231,11 @@ impl<'a> Cmp<'a> {
             }
         }
     }
+}
+
+/// the records handed back are the input records, cell for cell (a NaN cell is still that NaN cell)
+fn same_records<F: linfa::Float>(a: &Array2<F>, b: &Array2<F>) -> bool {
+    a.dim() == b.dim() && a.iter().zip(b.iter()).all(|(x, y)| x == y || (x.is_nan() && y.is_nan()))
 }
 
 /// all checks for one (model, batch)
@@ -192,8 +253,9 @@ where
     rng.shuffle(&mut perm);
     let op = format!("#sweep kind={} fit={} rows={}", kind, fit_id, hexrows(batch64));
     let mut skipped = 0usize;
+    let mut tally = (0usize, 0usize, 0usize);
     em.case_valid(op, kind, |ctx| {
-        let mut c = Cmp { kind, margin, skipped: 0 };
+        let mut c = Cmp { kind, margin, skipped: 0, compared: 0, same_layout: 0, inexact_same_layout: 0 };
         let base_t: T = <M as Predict<&Array2<F>, T>>::predict(m, batch);
         let base = conv(&base_t);
         ctx.require(base.len() == n, "one_output_per_row", kind, || format!("{} outputs for {} rows", base.len(), n));
@@ -264,14 +326,14 @@ where
             let want = bits(&base);
             let owned = <M as Predict<Array2<F>, DatasetBase<Array2<F>, T>>>::predict(m, batch.clone());
             ctx.require(bits(&conv(owned.targets())) == want, "forms_agree", kind, || "predict(records) differs from predict(&records)".to_string());
-            ctx.require(owned.records() == batch, "dataset_form_returns_records", kind, || "predict(records) did not hand the records back unchanged".to_string());
+            ctx.require(same_records(owned.records(), batch), "dataset_form_returns_records", kind, || "predict(records) did not hand the records back unchanged".to_string());
             let ds: DatasetBase<Array2<F>, Array1<()>> = DatasetBase::from(batch.clone());
             let t3: T = <M as Predict<&DatasetBase<Array2<F>, Array1<()>>, T>>::predict(m, &ds);
             ctx.require(bits(&conv(&t3)) == want, "forms_agree", kind, || "predict(&dataset) differs from predict(&records)".to_string());
-            ctx.require(ds.records() == batch, "dataset_form_returns_records", kind, || "predict(&dataset) modified the records".to_string());
+            ctx.require(same_records(ds.records(), batch), "dataset_form_returns_records", kind, || "predict(&dataset) modified the records".to_string());
             let d4 = <M as Predict<DatasetBase<Array2<F>, Array1<()>>, DatasetBase<Array2<F>, T>>>::predict(m, ds);
             ctx.require(bits(&conv(d4.targets())) == want, "forms_agree", kind, || "predict(dataset) differs from predict(&records)".to_string());
-            ctx.require(d4.records() == batch, "dataset_form_returns_records", kind, || "predict(dataset) did not hand the records back unchanged".to_string());
+            ctx.require(same_records(d4.records(), batch), "dataset_form_returns_records", kind, || "predict(dataset) did not hand the records back unchanged".to_string());
             // dataset forms on a dataset that already carries targets, weights and feature names: the
             // prediction must not look at any of them, the records come back unchanged
             {
@@ -281,10 +343,10 @@ where
                 let full = DatasetBase::new(batch.clone(), tg).with_weights(wt).with_feature_names(names);
                 let t: T = <M as Predict<&DatasetBase<Array2<F>, Array1<usize>>, T>>::predict(m, &full);
                 ctx.require(bits(&conv(&t)) == want, "forms_agree", kind, || "predict(&dataset with targets, zero weights, names) differs from predict(&records)".to_string());
-                ctx.require(full.records() == batch, "dataset_form_returns_records", kind, || "predict(&dataset with targets/weights) modified the records".to_string());
+                ctx.require(same_records(full.records(), batch), "dataset_form_returns_records", kind, || "predict(&dataset with targets/weights) modified the records".to_string());
                 let d = <M as Predict<DatasetBase<Array2<F>, Array1<usize>>, DatasetBase<Array2<F>, T>>>::predict(m, full);
                 ctx.require(bits(&conv(d.targets())) == want, "forms_agree", kind, || "predict(dataset with targets, zero weights, names) differs from predict(&records)".to_string());
-                ctx.require(d.records() == batch, "dataset_form_returns_records", kind, || "predict(dataset with targets/weights) did not hand the records back unchanged".to_string());
+                ctx.require(same_records(d.records(), batch), "dataset_form_returns_records", kind, || "predict(dataset with targets/weights) did not hand the records back unchanged".to_string());
             }
             let mut t5 = <M as PredictInplace<Array2<F>, T>>::default_target(m, batch);
             <M as PredictInplace<Array2<F>, T>>::predict_inplace(m, batch, &mut t5);
@@ -295,6 +357,13 @@ where
                 t6.junk(salt);
                 <M as PredictInplace<Array2<F>, T>>::predict_inplace(m, batch, &mut t6);
                 ctx.require(bits(&conv(&t6)) == want, "inplace_into_supplied_buffer", kind, || format!("predict_inplace into a pre-filled buffer (junk {}) differs from predict(&records): {:?} vs {:?}", salt, conv(&t6), base));
+            }
+            // ... into a buffer that is not in standard layout (owned strided `Array1`, column-major `Array2`)
+            {
+                let mut t9 = <M as PredictInplace<Array2<F>, T>>::default_target(m, batch).odd_layout();
+                t9.junk(0);
+                <M as PredictInplace<Array2<F>, T>>::predict_inplace(m, batch, &mut t9);
+                ctx.require(bits(&conv(&t9)) == want, "inplace_into_supplied_buffer", kind, || format!("predict_inplace into a pre-filled buffer that is not in standard layout differs from predict(&records): {:?} vs {:?}", conv(&t9), base));
             }
             // ... and reused from a previous batch of the same size (the rows in reverse order)
             if n > 0 {
@@ -315,10 +384,17 @@ where
             ctx.require(bits(&conv(&again)) == want, "repeatable", kind, || "a second predict(&records) on the same batch differs".to_string());
         }
         skipped = c.skipped;
+        tally = (c.compared, c.same_layout, c.inexact_same_layout);
         String::new()
     });
     if skipped > 0 {
         em.count_n(&format!("tie_skipped:{}", kind), skipped as u64);
+    }
+    em.count_n(&format!("rows:{}", kind), n as u64);
+    em.count_n(&format!("cmp:{}", kind), tally.0 as u64);
+    em.count_n(&format!("cmp_same_layout:{}", kind), tally.1 as u64);
+    if tally.2 > 0 {
+        em.count_n(&format!("inexact_same_layout:{}", kind), tally.2 as u64);
     }
 }
 
@@ -337,8 +413,7 @@ where
     }
     // a batch well beyond any small-batch fast path / chunk size: 33..=96 rows, midpoints of pool rows
     // (stay inside the pool's domain, exact on the quarter lattice)
-    if em.thorough() || rng.chance(1, 2) {
-        let nrows = 33 + rng.below(64);
+    let midpoints = |rng: &mut Rng, nrows: usize| -> Array2<f64> {
         let np = pool.nrows();
         let mut big = Array2::zeros((nrows, pool.ncols()));
         for i in 0..nrows {
@@ -347,9 +422,122 @@ where
                 big[(i, j)] = (pool[(a, j)] + pool[(b, j)]) / 2.0;
             }
         }
+        big
+    };
+    if em.thorough() || rng.chance(1, 2) {
+        let nrows = 33 + rng.below(64);
+        let big = midpoints(rng, nrows);
         em.count("batch:large");
         sweep_case::<F, M, T>(em, rng, kind, fit_id, m, &big, conv, margin);
     }
+    // ... and beyond the usual block sizes (128, 256): 130..=300 rows
+    if rng.chance(1, if em.thorough() { 2 } else { 4 }) {
+        let nrows = 130 + rng.below(171);
+        let big = midpoints(rng, nrows);
+        em.count("batch:huge");
+        em.count(&format!("huge:{}", kind));
+        sweep_case::<F, M, T>(em, rng, kind, fit_id, m, &big, conv, margin);
+    }
+    // a batch that contains non-finite rows (NaN, +-inf in one cell).  What the property promises for such
+    // a row is what predicting it ALONE yields: where that panics (`argmax().unwrap()` of GMM / naive Bayes /
+    // multinomial logistic, `Pr::new` of the probability models) nothing is promised for a batch that
+    // contains it (counted `nonfinite_unpromised:<kind>`, not compared); where it yields a value the
+    // whole sweep applies — in particular a zip-writing predictor must still write that row's cell
+    // (the class of the fixed isotonic finding)
+    {
+        let (np, p) = pool.dim();
+        let nrows = 3 + rng.below(4);
+        let mut nf = Array2::zeros((nrows, p));
+        for i in 0..nrows {
+            let a = rng.below(np);
+            nf.row_mut(i).assign(&pool.row(a));
+        }
+        let mut bad = vec![];
+        for _ in 0..1 + rng.below(2) {
+            let (i, j) = (rng.below(nrows), rng.below(p));
+            nf[(i, j)] = *rng.pick(&[f64::NAN, f64::NAN, f64::INFINITY, f64::NEG_INFINITY]);
+            bad.push(i);
+        }
+        let alone_ok = bad.iter().all(|i| {
+            let one: Array2<F> = nf.slice(s![*i..*i + 1, ..]).mapv(|v| F::cast(v));
+            std::panic::catch_unwind(std::panic::AssertUnwindSafe(|| {
+                let _ = <M as Predict<&Array2<F>, T>>::predict(m, &one);
+            }))
+            .is_ok()
+        });
+        if alone_ok {
+            em.count("batch:nonfinite");
+            em.count(&format!("nonfinite:{}", kind));
+            sweep_case::<F, M, T>(em, rng, kind, fit_id, m, &nf, conv, margin);
+        } else {
+            em.count(&format!("nonfinite_unpromised:{}", kind));
+        }
+    }
+}
+
+/// the single-sample calling forms (`Predict<ArrayBase<_, Ix1>, _>`: the SVM family, k-means): every pool
+/// row handed over as an owned `Array1`, as a contiguous `ArrayView1` and as a strided `ArrayView1` (a row
+/// of a column-major buffer) must give what the batch forms give for that row — bit-identical for the two
+/// contiguous forms (the batch loop runs the very same per-row code), within the layout tolerance for
+/// the strided one
+fn single_forms<F: linfa::Float>(em: &mut Em, kind: &str, pool64: &Array2<f64>, batch: &dyn Fn(&Array2<F>) -> Vec<Vec<V>>, one: &dyn Fn(ArrayView1<F>, bool) -> Vec<V>) {
+    let pool: Array2<F> = pool64.mapv(|v| F::cast(v));
+    let op = format!("#single kind={} rows={}", kind, hexrows(pool64));
+    em.count(&format!("single:{}", kind));
+    em.case_valid(op, kind, |ctx| {
+        let base = batch(&pool);
+        let mut fo = Array2::zeros(pool.dim().f());
+        fo.assign(&pool);
+        for i in 0..pool.nrows().min(base.len()) {
+            let v = one(pool.row(i), false);
+            ctx.require(videntical(&v, &base[i]), "forms_agree", kind, || format!("predict(ArrayView1 of row {}) gives {:?}, the batch forms {:?}", i, v, base[i]));
+            let o = one(pool.row(i), true);
+            ctx.require(videntical(&o, &base[i]), "forms_agree", kind, || format!("predict(Array1 of row {}) gives {:?}, the batch forms {:?}", i, o, base[i]));
+            let st = one(fo.row(i), false);
+            ctx.require(vclose(&st, &base[i]) != Some(false), "layout_independent", kind, || format!("predict(strided ArrayView1 of row {}) gives {:?}, the batch forms {:?}", i, st, base[i]));
+        }
+        String::new()
+    });
+}
+
+/// model-level tie of the score-table family: the `n x k` score matrix the real model takes its arg-max of
+/// goes to the driver (`tableBatch` reads it as the class-major table), which answers the class index per
+/// row; `idx()` = what the real predictor returns.  A row with several exactly maximal scores is written as
+/// their set when the class returned is one of them (the statement fixes no tie-break).
+fn table_case(em: &mut Em, kind: &str, sc: &Array2<f64>, idx: &dyn Fn() -> Vec<usize>) {
+    if sc.iter().any(|v| !v.is_finite()) {
+        em.count(&format!("table:nonfinite_scores:{}", kind));
+        return;
+    }
+    em.count(&format!("table:{}", kind));
+    let op = format!("table kind={} k={} scores={}", kind, sc.ncols(), hexrows(sc));
+    let class = format!("table:{}", kind);
+    em.case_valid(op, &class, |ctx| {
+        let out = idx();
+        ctx.require(out.len() == sc.nrows(), "one_output_per_row", &class, || format!("{} outputs for {} rows", out.len(), sc.nrows()));
+        let cells: Vec<String> = sc
+            .rows()
+            .into_iter()
+            .zip(out.iter())
+            .map(|(r, l)| {
+                let mx = r.iter().cloned().fold(f64::NEG_INFINITY, f64::max);
+                let w: Vec<usize> = (0..r.len()).filter(|c| r[*c] == mx).collect();
+                ctx.require(w.contains(l), "label_of_highest_score", &class, || format!("class {} returned, scores {:?}", l, r.to_vec()));
+                if w.len() > 1 && w.contains(l) { format!("t{}", w.iter().map(|x| x.to_string()).collect::<Vec<_>>().join("|")) } else { l.to_string() }
+            })
+            .collect();
+        format!("ok {}", cells.join(","))
+    });
+}
+
+/// model-level tie of the threshold family: decision values of the real model, `threshBatch` in the driver
+fn thresh_case(em: &mut Em, kind: &str, dec: &Array1<f64>, thr: f64, lab: &dyn Fn() -> Vec<bool>) {
+    if dec.iter().any(|v| v.is_nan()) {
+        return;
+    }
+    em.count(&format!("thresh:{}", kind));
+    let op = format!("thresh kind={} thr={} dec={}", kind, hex64(thr), list(dec.iter(), |x| hex64(*x)));
+    em.case_valid(op, &format!("thresh:{}", kind), |_ctx| format!("ok {}", list(lab().iter(), |b| b.to_string())));
 }
 
 fn top2_gap(v: &[f64]) -> f64 {
@@ -436,7 +624,8 @@ fn one_round(em: &mut Em, rng: &mut Rng) {
                     let d: Vec<f64> = cents.rows().into_iter().map(|c| -c.iter().zip(r.iter()).map(|(a, b)| (a - b) * (a - b)).sum::<f64>()).collect();
                     top2_gap(&d)
                 };
-                sweep_model::<f64, _, _>(em, rng, "kmeans", &m, &pool, &ustr, &margin)
+                sweep_model::<f64, _, _>(em, rng, "kmeans", &m, &pool, &ustr, &margin);
+                single_forms::<f64>(em, "kmeans", &pool, &|q| ustr(&m.predict(q)), &|r, owned| if owned { vec![V::D(m.predict(&r.to_owned()).to_string())] } else { vec![V::D(m.predict(&r).to_string())] });
             }
             Err(_) => fail_fit(em, "kmeans"),
         }
@@ -483,7 +672,8 @@ fn one_round(em: &mut Em, rng: &mut Rng) {
                         mixed[(2 * i + 1, j)] = pool[(i, j)] * 16.0 + 40.0;
                     }
                 }
-                sweep_model::<f64, _, _>(em, rng, "gmm", &m, &mixed, &ustr, &margin)
+                sweep_model::<f64, _, _>(em, rng, "gmm", &m, &mixed, &ustr, &margin);
+                table_case(em, "gmm", &m.predict_proba(&mixed), &|| m.predict(&mixed).to_vec());
             }
             Err(_) => fail_fit(em, "gmm"),
         }
@@ -571,7 +761,13 @@ fn one_round(em: &mut Em, rng: &mut Rng) {
         Ok(m) => {
             let mm = m.clone();
             let margin = move |r: ArrayView1<f64>| (mm.predict_probabilities(&row2(r))[0] - 0.5).abs();
-            sweep_model::<f64, _, _>(em, rng, "logistic_binary", &m, &pool, &bstr, &margin)
+            sweep_model::<f64, _, _>(em, rng, "logistic_binary", &m, &pool, &bstr, &margin);
+            // default threshold 0.5 (never changed here); `true` = the model's positive class (which of the two
+            // labels that is depends on the training targets: `labels().pos`)
+            thresh_case(em, "logistic_binary", &m.predict_probabilities(&pool), 0.5, &|| {
+                let pos = m.labels().pos.class;
+                m.predict(&pool).iter().map(|b| *b == pos).collect()
+            });
         }
         Err(_) => fail_fit(em, "logistic_binary"),
     }
@@ -580,7 +776,11 @@ fn one_round(em: &mut Em, rng: &mut Rng) {
         Ok(m) => {
             let mm = m.clone();
             let margin = move |r: ArrayView1<f64>| top2_gap(&mm.predict_probabilities(&row2(r)).row(0).to_vec());
-            sweep_model::<f64, _, _>(em, rng, "logistic_multinomial", &m, &pool, &ustr, &margin)
+            sweep_model::<f64, _, _>(em, rng, "logistic_multinomial", &m, &pool, &ustr, &margin);
+            // the un-normalised scores `x.W + b` the arg-max is taken of, computed as the model computes them
+            let sc = pool.dot(m.params()) + m.intercept();
+            let cls: Vec<usize> = m.classes().to_vec();
+            table_case(em, "logistic_multinomial", &sc, &|| m.predict(&pool).iter().map(|l| cls.iter().position(|c| c == l).unwrap_or(usize::MAX)).collect());
         }
         Err(_) => fail_fit(em, "logistic_multinomial"),
     }
@@ -608,7 +808,11 @@ fn one_round(em: &mut Em, rng: &mut Rng) {
             Ok(m) => {
                 let mm = m.clone();
                 let margin = move |r: ArrayView1<f64>| (mm.weighted_sum(&r) - mm.rho).abs();
-                sweep_model::<f64, _, _>(em, rng, &format!("svm_class_{}{}", kname, if nu { "_nu" } else { "" }), &m, &pool, &bstr, &margin)
+                let ck = format!("svm_class_{}{}", kname, if nu { "_nu" } else { "" });
+                sweep_model::<f64, _, _>(em, rng, &ck, &m, &pool, &bstr, &margin);
+                let dec: Array1<f64> = pool.rows().into_iter().map(|r| m.weighted_sum(&r) - m.rho).collect();
+                thresh_case(em, "svm_class", &dec, 0.0, &|| m.predict(&pool).to_vec());
+                single_forms::<f64>(em, &ck, &pool, &|q| bstr(&m.predict(q)), &|r, owned| if owned { vec![V::D(m.predict(r.to_owned()).to_string())] } else { vec![V::D(m.predict(r).to_string())] });
             }
             Err(_) => fail_fit(em, &format!("svm_class_{}{}", kname, if nu { "_nu" } else { "" })),
         }
@@ -616,7 +820,10 @@ fn one_round(em: &mut Em, rng: &mut Rng) {
         let params = Svm::<f64, Pr>::params().pos_neg_weights(1.0, 1.0);
         let params = with_kernel!(params);
         match params.fit(&Dataset::new(x.clone(), ybool.clone())) {
-            Ok(m) => sweep_model::<f64, _, _>(em, rng, "svm_probability", &m, &pool, &prstr, &NOMARGIN),
+            Ok(m) => {
+                sweep_model::<f64, _, _>(em, rng, "svm_probability", &m, &pool, &prstr, &NOMARGIN);
+                single_forms::<f64>(em, "svm_probability", &pool, &|q| prstr(&m.predict(q)), &|r, owned| if owned { vec![V::F(*m.predict(r.to_owned()) as f64)] } else { vec![V::F(*m.predict(r) as f64)] });
+            }
             Err(_) => fail_fit(em, "svm_probability"),
         }
         let params = Svm::<f64, f64>::params();
@@ -624,7 +831,10 @@ fn one_round(em: &mut Em, rng: &mut Rng) {
         let params = with_kernel!(params);
         let rkind = if nu { "svm_regression_nu" } else { "svm_regression" };
         match params.fit(&Dataset::new(x.clone(), yreg.clone())) {
-            Ok(m) => sweep_model::<f64, _, _>(em, rng, rkind, &m, &pool, &fstr, &NOMARGIN),
+            Ok(m) => {
+                sweep_model::<f64, _, _>(em, rng, rkind, &m, &pool, &fstr, &NOMARGIN);
+                single_forms::<f64>(em, rkind, &pool, &|q| fstr(&m.predict(q)), &|r, owned| if owned { vec![V::F(m.predict(r.to_owned()))] } else { vec![V::F(m.predict(r))] });
+            }
             Err(_) => fail_fit(em, rkind),
         }
         match Svm::<f64, Pr>::params().nu_weight(0.5).gaussian_kernel(30.0).fit(&Dataset::from(x.clone())) {
@@ -643,12 +853,21 @@ fn one_round(em: &mut Em, rng: &mut Rng) {
         Ok(m) => sweep_model::<f64, _, _>(em, rng, "decision_tree", &m, &pool, &ustr, &NOMARGIN),
         Err(_) => fail_fit(em, "decision_tree"),
     }
+    // ... and with `bool` labels (`DecisionTree<F, bool>`; `L::default()` = false is also a real label)
+    match linfa_trees::DecisionTree::params().max_depth(Some(1 + rng.below(4))).fit(&Dataset::new(x.clone(), ybool.clone())) {
+        Ok(m) => sweep_model::<f64, _, _>(em, rng, "decision_tree_bool", &m, &pool, &bstr, &NOMARGIN),
+        Err(_) => fail_fit(em, "decision_tree_bool"),
+    }
     trace("naive Bayes");
     // naive Bayes (margins from the serialised class statistics)
     {
         match linfa_bayes::GaussianNb::params().fit(&Dataset::new(x.clone(), y.clone())) {
             Ok(m) => {
                 let info = nb_info(&serde_json::to_value(&m).unwrap(), "theta", "sigma");
+                let readable = nb_readable(&info, k, p);
+                if !readable {
+                    em.count("margin_unreadable:gaussian_nb");
+                }
                 let margin = move |r: ArrayView1<f64>| {
                     let jll: Vec<f64> = info
                         .iter()
@@ -659,7 +878,8 @@ fn one_round(em: &mut Em, rng: &mut Rng) {
                         })
                         .collect();
                     let g = top2_gap(&jll);
-                    if g.is_finite() { g } else { 0.0 }
+                    // parameters unreadable (serde image changed): no margin, no skip
+                    if !readable { f64::INFINITY } else if g.is_finite() { g } else { 0.0 }
                 };
                 sweep_model::<f64, _, _>(em, rng, "gaussian_nb", &m, &pool, &ustr, &margin)
             }
@@ -669,10 +889,14 @@ fn one_round(em: &mut Em, rng: &mut Rng) {
         match linfa_bayes::MultinomialNb::params().fit(&Dataset::new(xc, y.clone())) {
             Ok(m) => {
                 let info = nb_info(&serde_json::to_value(&m).unwrap(), "feature_log_prob", "feature_log_prob");
+                let readable = nb_readable(&info, k, p);
+                if !readable {
+                    em.count("margin_unreadable:multinomial_nb");
+                }
                 let margin = move |r: ArrayView1<f64>| {
                     let jll: Vec<f64> = info.iter().map(|(prior, lp, _)| r.iter().zip(lp.iter()).map(|(x, l)| x * l).sum::<f64>() + prior.ln()).collect();
                     let g = top2_gap(&jll);
-                    if g.is_finite() { g } else { 0.0 }
+                    if !readable { f64::INFINITY } else if g.is_finite() { g } else { 0.0 }
                 };
                 sweep_model::<f64, _, _>(em, rng, "multinomial_nb", &m, &pool.mapv(|v| v.abs()), &ustr, &margin)
             }
@@ -814,7 +1038,10 @@ fn one_round_f32(em: &mut Em, rng: &mut Rng) {
         let params = Svm::<f32, f32>::params().c_svr(4.0, Some(0.125));
         let params = if gauss { params.gaussian_kernel(20.0) } else { params.linear_kernel() };
         match params.fit(&Dataset::new(x.clone(), yreg.clone())) {
-            Ok(m) => sweep_model::<f32, _, _>(em, rng, "f32:svm_regression", &m, &pool, &sstr, &NOMARGIN),
+            Ok(m) => {
+                sweep_model::<f32, _, _>(em, rng, "f32:svm_regression", &m, &pool, &sstr, &NOMARGIN);
+                single_forms::<f32>(em, "f32:svm_regression", &pool, &|q| sstr(&m.predict(q)), &|r, owned| if owned { vec![V::S(m.predict(r.to_owned()))] } else { vec![V::S(m.predict(r))] });
+            }
             Err(_) => fail_fit(em, "f32:svm_regression"),
         }
     }
@@ -825,6 +1052,10 @@ fn one_round_f32(em: &mut Em, rng: &mut Rng) {
     match linfa_bayes::GaussianNb::params().fit(&Dataset::new(x.clone(), y.clone())) {
         Ok(m) => {
             let info = nb_info(&serde_json::to_value(&m).unwrap(), "theta", "sigma");
+            let readable = nb_readable(&info, k, p);
+            if !readable {
+                em.count("margin_unreadable:f32:gaussian_nb");
+            }
             let margin = move |r: ArrayView1<f64>| {
                 let jll: Vec<f64> = info
                     .iter()
@@ -835,7 +1066,9 @@ fn one_round_f32(em: &mut Em, rng: &mut Rng) {
                     })
                     .collect();
                 let g = top2_gap(&jll);
-                if g.is_finite() { g * 1e-4 } else { 0.0 }
+                // f32 joint log-likelihoods reach 1e2..1e3 (rounding ~1e-4) and `sum_axis` reduces in another
+                // order on a column-major batch: skip below a 1e-3 gap (the skips are under a ceiling)
+                if !readable { f64::INFINITY } else if g.is_finite() { g * 1e-6 } else { 0.0 }
             };
             sweep_model::<f32, _, _>(em, rng, "f32:gaussian_nb", &m, &pool, &ustr, &margin)
         }
@@ -861,6 +1094,11 @@ fn one_round_f32(em: &mut Em, rng: &mut Rng) {
             _ => fail_fit(em, "f32:ftrl"),
         }
     }
+}
+
+/// the serde image gave one entry per class, each with a finite prior and two vectors of the feature width
+fn nb_readable(info: &[(f64, Vec<f64>, Vec<f64>)], k: usize, p: usize) -> bool {
+    info.len() == k && info.iter().all(|(pr, a, b)| pr.is_finite() && a.len() == p && b.len() == p)
 }
 
 /// (prior, vec a, vec b) per class from the serde image of a naive-Bayes model
@@ -1111,4 +1349,49 @@ pub fn run(em: &mut Em, rng: &mut Rng) {
     for _ in 0..(if em.thorough() { 40 } else { 6 }) {
         nb_exact_tie(em, rng);
     }
+    ceilings(em);
+}
+
+/// Ceilings on what the sweep does NOT alarm on (the counterpart of the coverage floors): per kind,
+///   * discrete mismatches skipped for a small decision margin (`tie_skipped:<kind>`): at most
+///     max(3, 0.5 %) of the comparisons of that kind — a margin recomputation gone deaf (renamed serde
+///     key, non-finite probabilities) would otherwise swallow every label mismatch;
+///   * comparisons of the same row in the SAME memory layout (batch vs alone vs permuted vs duplicate)
+///     that hold within the tolerance but not bit for bit (`inexact_same_layout:<kind>`): at most
+///     max(3, 1 %) — none occurs on the unchanged tree (the batch loops run the very per-row code), so a
+///     rounding-level coupling between the rows of a batch no longer passes by tolerance;
+///   * margin parameters unreadable (`margin_unreadable:<kind>`): never.
+/// Reported as oracle failures of the clauses `tie_skip_ceiling` / `rowwise_bits_ceiling` /
+/// `margin_readable`, class = the kind.  (A single-case replay sees no tallies and passes.)
+fn ceilings(em: &mut Em) {
+    let dist = em.dist.clone();
+    em.case_valid("#ceilings".to_string(), "ceilings", |ctx| {
+        for (key, v) in dist.iter() {
+            if let Some(kind) = key.strip_prefix("tie_skipped:") {
+                let cmp = dist.get(&format!("cmp:{}", kind)).copied().unwrap_or(0);
+                let cap = 3.max(cmp / 200);
+                ctx.require(*v <= cap, "tie_skip_ceiling", kind, || format!("{} discrete mismatches were skipped for a small decision margin, out of {} comparisons (ceiling {}; none on the unchanged tree)", v, cmp, cap));
+            }
+            if let Some(kind) = key.strip_prefix("inexact_same_layout:") {
+                let cmp = dist.get(&format!("cmp_same_layout:{}", kind)).copied().unwrap_or(0);
+                let cap = 3.max(cmp / 100);
+                ctx.require(*v <= cap, "rowwise_bits_ceiling", kind, || format!("{} of {} comparisons of a row with itself in another batch of the same layout (alone / permuted / duplicated) agree within the tolerance only, not bit for bit (ceiling {}; none on the unchanged tree): the rows of a batch are coupled at rounding level", v, cmp, cap));
+            }
+            // cells of the `mc` / `kmeans` / `table` ops written as a SET of tied candidates (the mask of the
+            // tie-break): the share of such cells stays near what the generators produce on the unchanged
+            // tree (mc ~ 0.18 by construction of the probability levels, kmeans ~ 0.02: lattice queries
+            // equidistant from two fitted centroids) — degenerate centroids / constant member
+            // probabilities would otherwise mask every cell
+            for (op, cap_pct) in [("mc", 45u64), ("kmeans", 10u64)] {
+                if key == &format!("{}:tied_cells", op) {
+                    let cells = dist.get(&format!("{}:cells", op)).copied().unwrap_or(0);
+                    ctx.require(*v * 100 <= cap_pct * cells.max(1), "tie_set_ceiling", op, || format!("{} of {} cells are written as a set of tied candidates (ceiling {} %)", v, cells, cap_pct));
+                }
+            }
+            if let Some(kind) = key.strip_prefix("margin_unreadable:") {
+                ctx.fail("margin_readable", kind, format!("the class statistics behind the decision margin could not be read from the model's serde image ({} fits)", v));
+            }
+        }
+        String::new()
+    });
 }
